@@ -137,6 +137,10 @@ class DatagramError(ProtocolError):
     error_code = ErrorCode.H3_DATAGRAM_ERROR
 
 
+class FrameError(ProtocolError):
+    error_code = ErrorCode.H3_FRAME_ERROR
+
+
 class FrameUnexpected(ProtocolError):
     error_code = ErrorCode.H3_FRAME_UNEXPECTED
 
@@ -176,8 +180,12 @@ def encode_settings(settings: dict[int, int]) -> bytes:
 
 def parse_max_push_id(data: bytes) -> int:
     buf = Buffer(data=data)
-    max_push_id = buf.pull_uint_var()
-    assert buf.eof()
+    try:
+        max_push_id = buf.pull_uint_var()
+    except BufferReadError:
+        raise FrameError("MAX_PUSH_ID frame is truncated")
+    if not buf.eof():
+        raise FrameError("MAX_PUSH_ID frame has trailing data")
     return max_push_id
 
 
@@ -185,8 +193,11 @@ def parse_settings(data: bytes) -> dict[int, int]:
     buf = Buffer(data=data)
     settings: dict[int, int] = {}
     while not buf.eof():
-        setting = buf.pull_uint_var()
-        value = buf.pull_uint_var()
+        try:
+            setting = buf.pull_uint_var()
+            value = buf.pull_uint_var()
+        except BufferReadError:
+            raise FrameError("SETTINGS frame is truncated")
         if setting in RESERVED_SETTINGS:
             raise SettingsError("Setting identifier 0x%x is reserved" % setting)
         if setting in settings:
@@ -810,7 +821,10 @@ class H3Connection:
                 headers = self._decode_headers(stream.stream_id, None)
             else:
                 frame_buf = Buffer(data=frame_data)
-                push_id = frame_buf.pull_uint_var()
+                try:
+                    push_id = frame_buf.pull_uint_var()
+                except BufferReadError:
+                    raise FrameError("PUSH_PROMISE frame is truncated")
                 stream.blocked_push_id = push_id
                 headers = self._decode_headers(
                     stream.stream_id, frame_data[frame_buf.tell() :]
